@@ -379,8 +379,12 @@ func (c *Conn) Write(b []byte) (int, error) {
 		if sz > len(c.writeBuf) {
 			break
 		}
-		if err := c.inspectWrite(c.writeBuf[:sz]); err != nil {
-			return 0, err
+		// Buffered records are no longer interpreted once the
+		// handshake inspection is over.
+		if !c.writePassthrough {
+			if err := c.inspectWrite(c.writeBuf[:sz]); err != nil {
+				return 0, err
+			}
 		}
 		n, err := c.Conn.Write(c.writeBuf[:sz])
 		c.writeBuf = c.writeBuf[n:]
